@@ -202,7 +202,7 @@ def gen_case(rng, index, tier):
             ops.append(dict(op='raise_inside', n=rng.choice([1, 2, 3, 5, 8, 13, 21, 34, 55]), k=rng.randrange(nsets)))
         else:
             ops.append(dict(op='gc'))
-    if rng.random() < 0.4 and cfg['compile_procs'] > 1 and not cfg['stats']:
+    if rng.random() < (0.4 if cfg['compile_procs'] > 1 else 0.08) and not cfg['stats']:
         from . import c16
         op = dict(op='call_parallel', k=rng.randrange(nsets), nprocs=rng.choice([2, 3]), sched=c16.gen_sched(rng))
         if rng.random() < 0.5:
